@@ -187,5 +187,5 @@ def plan(tier):
 
 def run_shard(ctx, spec):
     quick = ctx.tier == "quick"
-    ctx.explore("sesans", cases(40 if quick else 200), 40 if quick else 400, shrink_examples=15)
-    ctx.explore("gxi", gxi_cases(), 6 if quick else 60, shrink_examples=8)
+    ctx.explore("sesans", cases(40 if quick else 200), 100 if quick else 1000, shrink_examples=15)
+    ctx.explore("gxi", gxi_cases(), 12 if quick else 100, shrink_examples=8)
